@@ -8,12 +8,12 @@ ID = 'C04'
 LEVEL = 'exploration'
 TIERS = {'quick': 6000, 'thorough': 300000}
 RULE = ('seeded sessions of 1-6 stream operations (shell, exec_out, streaming_shell, root, list, stat, pull with/without callback, single- and '
-        'multi-WRITE push, also with a device FAIL that overtakes an OKAY, and pulls whose local destination fails mid-transfer so that the stream is closed while a device WRITE is in flight; streaming_shell generators read part-way with other commands run in between; destinations that fill the OPEN payload up to (and slightly beyond) maxdata) against a strict stop-and-wait adbd model with 32-bit remote ids != local ids; a protocol monitor on the device side '
+        'multi-WRITE push, also with a device FAIL that overtakes an OKAY, and pulls whose local destination fails mid-transfer so that the stream is closed while a device WRITE is in flight; streaming_shell generators read part-way with other commands run in between; destinations that fill the OPEN payload up to (and slightly beyond) maxdata; generators abandoned after 1-3 chunks; maxdata 256..512 with device paths longer than that) against a strict stop-and-wait adbd model with 32-bit remote ids != local ids; a protocol monitor on the device side '
         'runs one state machine per local id with knowledge of which device packets the host has already read. non-trivial = >= 2 streams and '
         '>= 1 multi-WRITE transfer in the run; distinct = event-log digests')
 ASSUMPTIONS = ['the device stalls until the OKAY it is owed arrives, as adbd does, so a missing OKAY becomes a timeout',
                'that list/stat/pull close their stream is C08/C09\'s statement; reboot() legitimately leaves its stream open']
-EXPECT_PROBES = {'all': ['c04_nested_streams', 'c04_open_fills_maxdata', 'c04_multi_wrte_push', 'c04_ge_4_streams', 'empty_payload_wrte_acked', 'push_fail_sent', 'fail_before_okay', 'wrte_in_flight_at_host_close', 'recv_closed_mid_transfer', 'late_okay']}
+EXPECT_PROBES = {'all': ['c04_abandoned_generator', 'c04_request_longer_than_maxdata', 'c04_nested_streams', 'c04_open_fills_maxdata', 'c04_multi_wrte_push', 'c04_ge_4_streams', 'empty_payload_wrte_acked', 'push_fail_sent', 'fail_before_okay', 'wrte_in_flight_at_host_close', 'recv_closed_mid_transfer', 'late_okay']}
 KINDS = ['shell', 'exec_out', 'streaming_shell', 'root', 'list', 'stat', 'pull', 'pull', 'push', 'push']
 OWN = ('protocol', 'wrong-result', 'unexpected-exception', 'timeout-instead-of-result', 'missing-exception', 'wrong-exception', 'hang', 'no-termination',
        'unacked-write', 'clse-count')
@@ -80,7 +80,31 @@ def generate(seed, tier):
             else:
                 inner.append({'op': 'list', 'path': S.add_dir(g, d, 4)})
         scn['actors'][0].append({'op': 'streaming_shell', 'cmd': name, 'decode': g.chance(0.5), 'nested': inner, 'nested_after': g.pick([1, 1, 2])})
-    if g.chance(0.15) and d['maxdata'] <= 16384:
+    elif c == 7:
+        # a streaming_shell consumer that stops early (break / close() / dropped reference) while connected: every chunk it was
+        # handed has been acknowledged, nothing more is sent on that stream
+        name = S.add_cmd(g, d, 3000)
+        scn['actors'][0] += [{'op': 'ss_create', 'cmd': name, 'decode': g.chance(0.5)}, {'op': 'ss_next', 'n': g.int(1, 3)}, {'op': 'ss_drop', 'how': g.pick(['close', 'del'])}]
+        if g.chance(0.5):
+            scn['actors'][0].append({'op': 'shell', 'cmd': S.add_cmd(g, d, 300), 'decode': False})
+    elif c == 8 and g.chance(0.5):
+        # a tiny maxdata and device paths longer than it: the sync request itself does not fit into one WRITE of that size;
+        # whatever the library does about that, it is still one WRITE at a time
+        d['maxdata'] = g.pick([256, 300, 512])
+        long = '/data/' + 'd' * g.int(260, 600)
+        S.add_file(g, d, 2000, path=long + '/f')
+        d['dirs'][long] = [[b'f'.hex(), 0o100644, 10, 5]]
+        for k in range(g.int(1, 3)):
+            kind = g.pick(['stat', 'list', 'pull', 'push'])
+            if kind == 'stat':
+                scn['actors'][0].append({'op': 'stat', 'path': long + '/f'})
+            elif kind == 'list':
+                scn['actors'][0].append({'op': 'list', 'path': long})
+            elif kind == 'pull':
+                scn['actors'][0].append({'op': 'pull', 'path': long + '/f', 'dest': 'bytesio'})
+            else:
+                scn['actors'][0].append({'op': 'push', 'src': 'bytesio', 'content': {'seed': g.int(0, 99), 'size': g.int(0, 2000), 'alpha': 'bin'}, 'path': long + '/p%d' % k, 'mtime': 3})
+    if g.chance(0.15) and 4096 <= d['maxdata'] <= 16384:
         # destinations right up to what fits into one message of this device (OPEN payload = destination + NUL <= maxdata)
         k = g.pick(['shell', 'exec_out', 'streaming_shell'])
         pad = d['maxdata'] - len((('shell:' if k != 'exec_out' else 'exec:')).encode()) - 1 - g.pick([0, 0, 1, 2, 17, -1, -40])     # the last two overshoot: the library does not limit destinations; the NUL clause holds there too
@@ -95,12 +119,28 @@ def evaluate(case, tapes=None):
     run, tape = run_scn(case, 'scn', 0, tapes)
     absorb(out, run, tape)
     probs = O.monitors(run, ('c04',)) + O.check_session(run, scn) + termination(run)
+    if scn['device']['maxdata'] < 4096:
+        # payload size against a maxdata below the legacy 4 KiB is outside every listed property (C07 quantifies over >= 4 KiB); C04's clauses do not mention size
+        probs = [p for p in probs if 'exceeds device maxdata' not in p[1]]
     dev = run.device
     recs = run.results[0]
     all_ok = all(r['ok'] for r in recs)
     multi = False
     pr = out['probes']
+    # streams whose generator the caller abandoned part-way: what the device sends afterwards is never delivered to anybody, so
+    # neither an OKAY nor a CLSE is owed for it; what *was* handed to the caller must have been acknowledged, once each
+    abandoned = {}
+    for r in recs:
+        if r['op'] == 'ss_next' and r['ok']:
+            for s in dev.all_streams:
+                if r['pk0'] <= s.open_pk < r['pk1']:
+                    abandoned[s.sid] = len(r['value'])
+    consumed_later = any(r['op'] == 'ss_consume' for r in recs)
     for s in dev.all_streams:
+        if s.sid in abandoned and not consumed_later:
+            if all_ok and not run.abort and s.host_okays != abandoned[s.sid]:
+                probs.append(O.P('unacked-write', 'stream %d (%s): the caller was handed %d chunk(s) before it abandoned the generator, the host sent %d OKAY(s)' % (s.local, s.dest[:20], abandoned[s.sid], s.host_okays)))
+            continue
         if len(s.recv_payloads) >= 2:
             multi = True
             pr['c04_multi_wrte_push'] = pr.get('c04_multi_wrte_push', 0) + 1
@@ -117,6 +157,10 @@ def evaluate(case, tapes=None):
                 probs.append(O.P('clse-count', 'stream %d (%s): device CLSE was delivered, host sent %d CLSE' % (s.local, s.dest[:20], s.host_clse_count)))
     if any(r.get('nested') for r in recs):
         pr['c04_nested_streams'] = 1
+    if any(r['op'] == 'ss_drop' for r in recs):
+        pr['c04_abandoned_generator'] = 1
+    if scn['device']['maxdata'] < 4096 and any(p[1] == 'WRTE' and p[4] > scn['device']['maxdata'] for p in dev.host_pkts):
+        pr['c04_request_longer_than_maxdata'] = 1
     if any(p[1] == 'OPEN' and p[4] >= dev.maxdata - 2 for p in dev.host_pkts):
         pr['c04_open_fills_maxdata'] = 1
     if len(dev.all_streams) >= 4:
